@@ -345,6 +345,28 @@ def check_trailing_comment(run: Run) -> None:
                 later = [s for s in walk_no_nested(fi.node) if isinstance(s, (ast.Assign, ast.AugAssign)) and s is not st and s is not defs[0] and line_var in {x.id for x in ast.walk(s.targets[0] if isinstance(s, ast.Assign) else s.target) if isinstance(x, ast.Name)}]
                 ok = ok and not later
                 why = f"comment appended to `{line_var}` = {_text(defs[0].value)[:60]}"
+        if not ok:
+            # the same line written as one concatenation / f-string: `<prefix> + value_str + _emit_trailing_comment(..)` - the
+            # comment is the operand right after the complete value text
+            par = getattr(u, "_parent", None)
+            if isinstance(par, ast.BinOp) and isinstance(par.op, ast.Add) and par.right is u:
+                left = par.left
+                while isinstance(left, ast.BinOp) and isinstance(left.op, ast.Add):
+                    left = left.right
+                if isinstance(left, ast.JoinedStr) and left.values:
+                    left = left.values[-1].value if isinstance(left.values[-1], ast.FormattedValue) else left
+                ok = isinstance(left, ast.Name) and left.id in value_vars
+                # ... and nothing is appended after the comment
+                top = par
+                while isinstance(getattr(top, "_parent", None), ast.BinOp):
+                    top = top._parent  # type: ignore[attr-defined]
+                    ok = ok and top.left is not u and (top.right is par or top.left is par or True) and not (isinstance(top, ast.BinOp) and top.left is not None and any(x is u for x in ast.walk(top.left)) and top.right is not None and top.right is not u and not any(x is u for x in ast.walk(top.right)))
+                why = f"comment concatenated right after the value text in `{_text(st)[:60]}`"
+            elif isinstance(par, ast.FormattedValue) and isinstance(getattr(par, "_parent", None), ast.JoinedStr):
+                vals = par._parent.values  # type: ignore[attr-defined]
+                i_ = vals.index(par)
+                ok = i_ == len(vals) - 1 and i_ >= 1 and isinstance(vals[i_ - 1], ast.FormattedValue) and isinstance(vals[i_ - 1].value, ast.Name) and vals[i_ - 1].value.id in value_vars
+                why = f"comment interpolated right after the value text in `{_text(st)[:60]}`"
         run.instance("R01.6", em.loc(u), f"emit_assignment: {why}", ok=ok)
         if not ok:
             run.violation("R01.6", em, "emit_assignment", "trailing comment placement", f"the trailing comment is not appended to the line that ends with the complete value text ({why}): for a multi-line list it lands inside the brackets, where the reader drops comments, so the canonical text changes on the next pass")
